@@ -46,11 +46,19 @@ func (p *Prover) Init(curve *math.Curve, msgLen int, thresholdPK []byte, parties
 			return err
 		}
 
+		if len(pk.Y) != p.pp.n {
+			return fmt.Errorf("public key of party %d has %d components but expected %d", party, len(pk.Y), p.pp.n)
+		}
+
 		p.publicKeysOfParties[party] = pk
 	}
 
 	if err := p.tpk.fromBytes(curve, tpk.TPK); err != nil {
 		return err
+	}
+
+	if len(p.tpk.Y) != p.pp.n {
+		return fmt.Errorf("threshold public key has %d components but expected %d", len(p.tpk.Y), p.pp.n)
 	}
 
 	return nil
